@@ -735,13 +735,22 @@ class Fn:
             # `let mut m = [0u8; N];` - a buffer that a following `r.read_exact(&mut m)?` fills
             self.buffers[s[1][1]] = s[3][2][1]
             return after(dict(env, **{s[1][1]: "[u8;%d]" % s[3][2][1]}))
+        if k == "let" and s[1][0] == "pbind" and s[3] is not None and s[3][0] == "macro" and s[3][1] == "vec" and self.spec.get("read_exact") \
+                and len(s[3][2]) >= 3 and s[3][2][0][0] == "num" and str(s[3][2][0][1]) in ("0", "0u8") and s[3][2][1] == ("op", ";"):
+            # `let mut buf = vec![0u8; n];` - a buffer of n bytes (n an expression) that a following read_exact fills
+            n_e = R.Parser(list(s[3][2][2:])).expr()
+            self.buffers[s[1][1]] = paren(self.ex(n_e, env))
+            return after(dict(env, **{s[1][1]: "Vec<u8>"}))
         if k == "expr" and self.spec.get("read_exact"):
             e0 = s[1]
             while e0[0] == "try":
                 e0 = e0[1]
             if e0[0] == "mcall" and e0[2] == "read_exact" and e0[1][0] == "path" and len(e0[3]) == 1 and e0[3][0][0] == "path" and e0[3][0][1][0] in self.buffers:
                 rv, bv = self.var(e0[1][1][0]), self.var(e0[3][0][1][0])
-                return "match take_exact %d %s with Some (%s, %s) => %s | None => %s end" % (self.buffers[e0[3][0][1][0]], rv, bv, rv, after(env), self.spec["read_exact"])
+                fail = self.spec["read_exact"]
+                if isinstance(fail, dict):
+                    fail = fail[e0[3][0][1][0]]
+                return "match take_exact %s %s with Some (%s, %s) => %s | None => %s end" % (self.buffers[e0[3][0][1][0]], rv, bv, rv, after(env), fail)
         if k == "let" and s[1][0] == "pbind" and s[3] is not None and self.spec.get("opens"):
             e0 = s[3]
             while e0[0] == "try":
@@ -1241,6 +1250,41 @@ def functions():
         return translate_fn(src, "read_magic", None, spec, "g_read_magic", "(r : list Z)", "option bool")
     out.append(("read_magic", "src/bin/copia/wire.rs read_magic", None, t_read_magic))
 
+    READ_FRAME_LEN = """{
+    match r.read_exact(&mut lenb) {
+        Ok(()) => {}
+        Err(e) if e.kind() == std::io::ErrorKind::UnexpectedEof => return Ok(None),
+        Err(e) => return Err(e),
+    }
+}"""
+    READ_FRAME_TAIL = "{ from_reader(&buf[..]).map(Some).map_err(|e| std::io::Error::new(std::io::ErrorKind::InvalidData, e.to_string())) }"
+
+    def t_read_frame():
+        src = read("src/bin/copia/wire.rs")
+        params, ret, body = R.find_fn(src, "read_frame", None)
+        norm = lambda x: json.loads(json.dumps(x))
+        want = R.Parser(R.tokenize(READ_FRAME_LEN)).block()
+        want_st = want[1][0] if want[1] else ("expr", want[2], False)
+        stmts = list(body[1])
+        idx = next((i for i, st in enumerate(stmts) if st[0] == "expr" and st[1][0] == "match" and norm(st[1]) == norm(want_st[1] if want_st[0] == "expr" else want_st)), None)
+        if idx is None:
+            raise Unsupported("read_frame: the length prefix is no longer read by `match r.read_exact(&mut lenb) { Ok(()) => {}, Err(e) if e.kind() == UnexpectedEof => return Ok(None), Err(e) => return Err(e) }`")
+        # read as: fewer than 4 bytes left = clean end of the stream (nothing consumed); any other error cannot occur on a byte string
+        stmts[idx] = ("expr", ("try", ("mcall", ("path", ["r"]), "read_exact", [("path", ["lenb"])])), True)
+        want_tail = R.Parser(R.tokenize(READ_FRAME_TAIL)).block()[2]
+        if norm(body[2]) != norm(want_tail):
+            raise Unsupported("read_frame: the payload is no longer decoded by `from_reader(&buf[..]).map(Some).map_err(..)`")
+        tail = ("call", ("path", ["DECODE"]), [("path", ["buf"])])
+        if [n for n, _ in params] != ["r"]:
+            raise Unsupported("signature of read_frame is %s" % params)
+        spec = dict(read_exact={"lenb": "FEnd r", "buf": "FShort len_ r"}, consts={"MAX_FRAME": ("MAX_FRAME", "u32")},
+                    calls={"u32::from_be_bytes": ("be32 {0}", "u32"), "DECODE": ("match decode {0} with Some v => FOk len_ v r | None => FBad len_ r end", "Frame")},
+                    errs=[(r"frame exceeds MAX_FRAME", "FTooBig r")], param_types={"r": "Input"})
+        fn = Fn(spec)
+        text = fn.block(("block", stmts, tail), {"r": "Input"}, Ctx(val=(lambda x: x), ret=(lambda x: x), fall=None))
+        return "Definition g_read_frame (r : list Z) : fres :=\n  %s." % text
+    out.append(("read_frame", "src/bin/copia/wire.rs read_frame", None, t_read_frame))
+
     tgt_calls = {".find": ("findZ {0} {1}", "Option<usize>"), ".contains": ("containsZ {0} {1}", "bool"), "PathBuf::from": ("{0}", "Path")}
 
     def t_split_target():
@@ -1599,6 +1643,7 @@ GROUPS = {
     "Cas": ("", True, ["cas_decide"]),
     "Targets": ("Model.Targets", False, ["split_target", "parse_location"]),
     "WireMagic": ("Model.Wire", False, ["read_magic"]),
+    "WireFrame": ("Model.Wire", "wireframe", ["read_frame"]),
     "BisyncApply": ("", "bisync", ["apply"]),
     "HubDelete": ("", "hubseq", ["handle_delete", "handle_put"]),
     "HubSync": ("", "hubsync", ["hub_sync"]),
@@ -1682,6 +1727,11 @@ def main():
                      "Definition dpush_lit (d : ddelta) (x : list Z) : ddelta := dset d (push_lit (d_ops _ d) x).\n"
                      "Definition dpush_lit_byte (d : ddelta) (x : Z) : ddelta := dset d (push_lit_byte (d_ops _ d) x).\n"
                      "Definition dfinish (d : ddelta) : ddelta := dset d (rev (d_ops _ d)).\n\n" + "\n".join(texts) + "End WithDigest.\n")
+        elif digest == "wireframe":
+            body += ("\nSection WithDecoder.\nVariable request : Type.\nVariable decode : list Z -> option request.   (* ciborium::from_reader on the whole payload *)\n"
+                     "(* what one call of read_frame does to the input: the clean end, an oversize prefix (nothing reserved), a short or\n   undecodable payload (after reserving [alloc] bytes), or a request; [rest] = the input left *)\n"
+                     "Inductive fres := FEnd (rest : list Z) | FTooBig (rest : list Z) | FShort (alloc : Z) (rest : list Z) | FBad (alloc : Z) (rest : list Z)\n"
+                     "                | FOk (alloc : Z) (rq : request) (rest : list Z).\n\n" + "\n".join(texts) + "End WithDecoder.\n")
         elif digest == "archivesys":
             body = (HEADER % (group, imports)) + "\nSection WithFs.\nVariable path_exists : apath -> bool.   (* path.exists() *)\n\n" + "\n".join(texts) + "End WithFs.\n"
         elif digest == "onewaysys":
